@@ -120,6 +120,11 @@ def _case(draw):
     if grain == "hh93i" and fmts == ["leeds"]:
         # the ism example's H2-formation modifier uses a derived quantity of the dust model
         om_choices += [[{"target": "H2", "factor": "0.5 * hloss", "deps": ["H"]}, {"target": "H", "factor": "-hloss", "deps": ["H"]}]] * 2
+    if grain and any(f in ("leeds", "uclchem") for f in fmts):
+        # modifiers written in terms of the dust model's own derived quantities (every model declares garea, mant and
+        # densites once a surface species instantiates it): they are copied into the RHS *and* into the Jacobian
+        om_choices += [[{"target": "H2", "factor": "0.5 * garea", "deps": ["H"]}, {"target": "H", "factor": "-1.0 * garea * densites", "deps": ["H"]}],
+                       [{"target": "H", "factor": "1.0e-3 * mant", "deps": ["H2"]}, {"target": "H2", "factor": "-1.0e-3 * mant", "deps": ["H2", "H"]}]] * 2
     if fmts == ["uclchem"]:
         # the cloud example's modifiers use derived quantities of the UCLCHEM reaction class
         om_choices += [[{"target": "H2", "factor": "H2formation", "deps": ["H"]}, {"target": "H2", "factor": "-H2dissociation", "deps": ["H2"]}]] * 2
